@@ -51,6 +51,16 @@ CHECKS.update({
    text="Faults are raised instead of / after the k-th engine-originated provider call; the production loop body must swallow them, raise the matching notification in the same step, and converge without loss once faults stop. The 'single' part enumerates, for each generated fault-free history, every engine call index x 7 fault kinds/phases once (all placements of a single fault); 'stuck' covers permanently failing files (locked / invalid name).",
    note=E_NOTE + " Two fault-placement families are fenced off as open findings (KF-20, KF-21) and replayed every run."),
 })
+CHECKS.update({
+ "C06": dict(engine="E-engine-harness", category="exploration", design_ref="2/C06",
+   technique="property-based testing: Hypothesis-generated histories with stop/start cycles at arbitrary step boundaries, offline user changes and four storage-damage modes; oracle = reference merged tree at every quiet point plus a call-log invariant (no transfer after a restart at a quiet point)",
+   text="The engine is stopped and a new one is built over the same storage and accounts (provider cursors reset to what a new process sees); modes remove or corrupt the stored cursor or the walk marker. Both roots must equal the expected tree afterwards and a restart at a quiet point must not transfer anything.",
+   note=E_NOTE),
+ "C07": dict(engine="E-engine-harness", category="fault_enumeration", design_ref="2/C07",
+   technique="crash-point injection driven by property-based generation: a crash is raised immediately before the k-th storage write or after the k-th engine provider mutation, the engine object is discarded and rebuilt over the surviving storage/provider contents; 'enum' re-runs each generated history once per crash point (all points in the thorough tier); oracle = convergence + version survival + no conflict artefacts",
+   text="Every storage write and every engine-issued provider mutation of a generated run is a crash point; quick samples 12 evenly spread points per history, thorough enumerates all of them. After the crash the history continues and must still converge without loss and (one-sided) without '.conflicted' names.",
+   note=E_NOTE + " Atomic row writes are assumed (DictStorage). KF-29/KF-27b (object touched again between crash and re-sync) are fenced off and replayed."),
+})
 NOT_YET = {}
 
 def main():
